@@ -264,13 +264,46 @@ def finding_P_cases():
                                                         "exact": False, "window_width": 7, "order": 3, "n_iter": 1}}]
 
 
+def _finding_registered(classifier):
+    """open finding P (weighted Savitzky-Golay with a vanishing window weight sum) is listed in known_findings.json:
+    only then are its input shapes generated (they are VIOLATIONs otherwise, by design)"""
+    import json
+    path = os.path.join(os.path.dirname(os.path.dirname(os.path.dirname(os.path.abspath(__file__)))), "known_findings.json")
+    try:
+        fs = json.load(open(path)).get("findings", [])
+    except Exception:
+        return False
+    return any(f.get("property") == "C19" and f.get("status") == "open" and f.get("classifier") == classifier for f in fs)
+
+
+def zero_denominator_cases(rng, k):
+    """weights whose window sum vanishes: a run of >= 7 zeros, or the positive pattern (4, 1, 1/4 x5) against the
+    7-point cubic window (-2, 3, 6, 7, 6, 3, -2)/21"""
+    out = []
+    for _ in range(k):
+        n = rng.randint(24, 60)
+        x, _ex = gen_vec(rng, n, rng.choice(["dyadic", "float", "const"]))
+        w = [rng.choice([1.0, 0.5, 2.0]) for _ in range(n)]
+        s = rng.randint(8, n - 16)
+        if rng.random() < 0.5:
+            for j in range(s, s + rng.randint(7, 9)):
+                w[j] = 0.0
+        else:
+            pat = [4.0, 1.0, 0.25, 0.25, 0.25, 0.25, 0.25]
+            w[s:s + 7] = pat if rng.random() < 0.5 else pat[::-1]
+        out.append({"op": "smooth", "tag": "savgol_w-zero-denominator",
+                    "in": {"name": "savgol_w", "x": x, "w": w, "width": 7, "malformed": False, "exact": False,
+                           "window_width": 7, "order": 3, "n_iter": 1}})
+    return out
+
+
 def gen_cases(rng, tier):
     mult = {"quick": 1, "thorough": 8, "search": 2}[tier]
-    plan = [("loc", "biweight_location", 300, 60), ("loc", "modal_location", 150, 120), ("loc", "weighted_median", 1200, 400),
-            ("scale", "mad", 250, 400), ("scale", "iqr", 250, 400), ("scale", "gapper", 250, 400), ("scale", "qn", 120, 40),
-            ("scale", "bivar", 60, 16), ("scale", "wmad", 500, 400), ("scale", "wstd", 250, 400),
-            ("smooth", "rolling_median", 350, 400), ("smooth", "kaiser", 250, 400), ("smooth", "savgol", 250, 400),
-            ("smooth", "savgol_w", 200, 200)]
+    plan = [("loc", "biweight_location", 220, 60), ("loc", "modal_location", 120, 120), ("loc", "weighted_median", 800, 400),
+            ("scale", "mad", 200, 400), ("scale", "iqr", 200, 400), ("scale", "gapper", 200, 400), ("scale", "qn", 100, 40),
+            ("scale", "bivar", 45, 16), ("scale", "wmad", 350, 400), ("scale", "wstd", 200, 400),
+            ("smooth", "rolling_median", 300, 400), ("smooth", "kaiser", 200, 400), ("smooth", "savgol", 160, 300),
+            ("smooth", "savgol_w", 150, 200)]
     cases = []
     for op, name, cnt, nmax in plan:
         for _ in range(cnt * mult):
@@ -291,6 +324,8 @@ def gen_cases(rng, tier):
             cases.append({"op": "loc", "tag": name + "-big", "in": {"name": name, "a": a, "c": 1.0, "exact": False}})
         else:
             cases.append({"op": "scale", "tag": name + "-big", "in": {"name": name, "a": a, "c": 1.0, "k": 2.0, "exact": False}})
+    if _finding_registered("savgol_zero_denominator"):
+        cases += zero_denominator_cases(rng, 6 * mult)
     # malformed stream: unequal lengths, zero total weight
     for _ in range(20 * mult):
         n = rng.randint(1, 6)
@@ -514,12 +549,18 @@ def nontrivial(case, impl, resp):
 
 
 def classify_savgol_zero_denominator(case, impl, resp):
-    """finding P: weighted Savitzky-Golay where some window's weights cancel against the window (N_i = 0)"""
+    """finding P: weighted Savitzky-Golay where the weights of some window cancel against the window's negative
+    lobes or are all zero (N_i = 0 up to rounding): the quotient D_i/N_i is NaN or noise"""
     i = case["in"]
     if case["op"] != "smooth" or i["name"] != "savgol_w":
         return False
     out = resp.get("out")
-    return isinstance(out, list) and any(v is None for v in out)
+    if isinstance(out, list) and any(v is None for v in out):
+        return True
+    try:
+        return float(Fraction(resp.get("slack", "1"))) < 1e-9
+    except Exception:
+        return False
 
 
 def shrink(case):
